@@ -493,7 +493,10 @@ class Interp:
                 return isinstance(op, ast.NotEq)
             return simp(f(I(a), I(b)))
         if isinstance(a, STensor) or isinstance(b, STensor):
-            raise Unsupported('comparison of tensor data')
+            opname = {ast.Eq: '==', ast.NotEq: '!=', ast.Lt: '<', ast.LtE: '<=', ast.Gt: '>', ast.GtE: '>='}.get(type(op))
+            if opname is None:
+                raise Unsupported('comparison of tensor data')
+            return t_compare(opname, a, b)
         try:
             return f(a, b)
         except TypeError:
@@ -509,7 +512,7 @@ class Interp:
         for op, cn in zip(n.ops, n.comparators):
             b = s.ev(cn, env)
             r = s.cmp(op, a, b)
-            if isinstance(r, IArr):
+            if isinstance(r, IArr) or type(r).__name__ == 'MaskT':
                 return r
             if not s.truth_keep(r):
                 return False
@@ -530,7 +533,7 @@ class Interp:
     def truth(s, v):
         if isz(v):
             return ctx().decide(v)
-        if isinstance(v, (STensor, IArr)):
+        if isinstance(v, (STensor, IArr)) or type(v).__name__ == 'MaskT':
             raise Unsupported('truth value of an array')
         if isinstance(v, s.P.SList):
             raise Unsupported('truth value of a symbolic list')
